@@ -25,7 +25,10 @@ RULE = (
     "that must stay functions; the maps persist over all cases of a shard (pool partition). "
     "Strings are drawn from plain values and from concatenations of the digest's own framing tokens. "
     "xproc: the same spec is built in two worker processes with other PYTHONHASHSEEDs and permuted "
-    "field declaration order; all content ids must agree. non-trivial = the mutation applied and "
+    "field declaration order; all content ids must agree. reloaded: a tree is written under one "
+    "digest width (1..64), dropped, optionally one int property of the payload is edited, and read "
+    "back (as_obj on the class / on ASTNode / from_json) under the same or another width; every node "
+    "read must carry the content_id of the same content built by hand. non-trivial = the mutation applied and "
     "the two specs differ; distinct = distinct canonical (spec, mutation) data."
 )
 ASSUMPTIONS = [
@@ -593,7 +596,90 @@ def st_xproc(ctx: Ctx):
     return st.fixed_dictionaries({"tree": g.tree(), "digest": st.sampled_from([8, 16]), "wsel": st.integers(0, 3)})
 
 
+# ----------------------------------------------------------------------------- reloaded
+
+
+def check_reloaded(data: dict, lab: Labels) -> None:
+    """content_id of nodes that come out of the deserializer: a tree is written under one digest
+    width, dropped, and read back under another (or the same) width, optionally after one int
+    property of the payload was edited; every node read must carry the content_id a node built by
+    hand from the same content gets now."""
+    import copy
+
+    from pyoak import config
+    from pyoak.node import ASTNode
+
+    config.ID_DIGEST_SIZE = data["digest_a"]
+    b, root_e, ex = T.build(data["tree"], allow_share=False)
+    root = b.root
+    cls = type(root)
+    payload = root.as_dict()
+    pre = T.nodes_preorder(root_e)
+    parent: dict = {root_e.uid: None}
+    for c, p, fn, i in T.positions(root_e):
+        parent[c.uid] = (p, fn, i)
+    edit_at = None
+    if data["edit"]:
+        cands = [k for k, e in enumerate(pre) if isinstance(e.props.get("v"), int) and not isinstance(e.props.get("v"), bool)
+                 and e.cls in ("LeafA", "LeafB", "SubLeafA", "Mixed")]
+        if cands:
+            edit_at = cands[data["edit"] % len(cands)]
+            cur = pre[edit_at]
+            path = []
+            while parent[cur.uid] is not None:
+                p, fn, i = parent[cur.uid]
+                path.append((fn, i))
+                cur = p
+            at = payload
+            for fn, i in reversed(path):
+                at = at[fn] if i is None else at[fn][i]
+            at["v"] = at["v"] + 1 + data["edit"] % 3
+            new_v = at["v"]
+    for n in T.live_nodes(root):
+        n.detach_self()
+    old_root_cid = root.content_id
+    del b, root
+    config.ID_DIGEST_SIZE = data["digest_b"]
+    fmt = data["fmt"] % 3
+    if fmt == 0:
+        res = cls.as_obj(copy.deepcopy(payload))
+    elif fmt == 1:
+        res = ASTNode.as_obj(payload)
+    else:
+        res = cls.from_json(json.dumps(payload))
+    e2, _ = T.expand(data["tree"], allow_share=False)
+    pre2 = T.nodes_preorder(e2)
+    if edit_at is not None:
+        pre2[edit_at].props["v"] = new_v
+    b2 = T.Built(e2, T.og.make_sources())
+    got = [res, *[i.node for i in res.dfs()]]
+    require(len(got) == len(pre2), "reload-shape", f"{len(got)} nodes read, {len(pre2)} built")
+    for k, (g, e) in enumerate(zip(got, pre2)):
+        h = b2.of(e)
+        require(type(g) is type(h), "reload-shape", f"node {k}: {type(g).__name__} / {type(h).__name__}")
+        require(g.content_id == h.content_id, "content_id-vs-content",
+                f"node {k} ({e.cls}) read from a payload written at width {data['digest_a']}"
+                f"{' and edited' if edit_at is not None else ''}: content_id {g.content_id}, the same content built by hand: {h.content_id}")
+        require(g.is_equal(h) and h.is_equal(g), "is_equal", f"node {k} ({e.cls}) read from a payload vs built by hand")
+    if edit_at is not None and data["digest_a"] == data["digest_b"] >= 8:
+        require(res.content_id != old_root_cid, "content_id-vs-content",
+                "a payload with an edited property was read back with the content_id of the unedited tree")
+    lab.tag_if(data["digest_a"] != data["digest_b"], "width-changed")
+    lab.tag_if(edit_at is not None, "payload-edited")
+    lab.tag(f"width{data['digest_a']}->{data['digest_b']}")
+    lab.nontrivial = data["digest_a"] != data["digest_b"] or edit_at is not None
+    lab.sample_class = "edited" if edit_at is not None else None
+
+
+def st_reloaded(ctx: Ctx):
+    g = T.TreeGen(leaves=ctx.pick(6, 10), share=False, origin_rate=0.2, servals=True, frozensets=False, wide=False)
+    w = st.sampled_from([8, 8, 16, 1, 2, 64, 4])
+    return st.fixed_dictionaries({"tree": st.one_of(g.tree(), g.inner_tree()), "digest_a": w, "digest_b": w,
+                                  "edit": st.sampled_from([0, 0, 1, 2, 3, 5]), "fmt": st.integers(0, 2)})
+
+
 PARTS = [
+    Part("reloaded", check_reloaded, strategy=st_reloaded, quick=1200, thorough=40000),
     Part("pairs", check_pairs, strategy=st_pairs, quick=4800, thorough=300000),
     Part("xproc", check_xproc, strategy=st_xproc, quick=800, thorough=32000),
     Part("explicit_pair", check_explicit_pair),
